@@ -183,8 +183,8 @@ def judge_c08(cfg, market, out, ctx):
                 return
             E = cash + m
             if E <= 0:
-                ctx.probe("c08_out_of_domain_nonpositive_equity")
-                return
+                # the documented rules say nothing special here: the allocation is equity x weight whatever its sign
+                ctx.probe("c08_rebalance_with_nonpositive_equity")
             w = alpha_weights(cfg, t)
             full = sorted(set(hold) | set(universe_at(cfg, t)))
             fw = dict((a, 0.0) for a in full)
@@ -205,6 +205,11 @@ def judge_c08(cfg, market, out, ctx):
                 sized = size_long_only(E, cfg["cash_buffer"], rate, fw, lambda a: price(a, t))
             else:
                 sized = size_long_short(E, cfg["leverage"], rate, fw, lambda a: price(a, t))
+            if any(abs(float(v[2])) > 1e9 for v in sized.values()):
+                # a book that has run away (leveraged and under water, rebalanced again and again): beyond 1e9
+                # shares the implementation's float arithmetic and the exact reference part by whole shares
+                ctx.probe("c08_out_of_domain_astronomic_quantity")
+                return
             target = {}
             # an asset the sizer leaves out has no target, i.e. a target of zero; only quantities are judged
             stray = [a for a, q in srec["result"].items() if a not in sized and q != 0]
